@@ -624,6 +624,8 @@ def make_inputs(shapes, axes, rng: common.Rng, B: int = 2):
             shp = shp[:a] + (B,) + shp[a:]
         n = int(np.prod(shp)) if shp else 1
         vals = [pool[rng.next() % len(pool)] + (rng.next() % 7) / 16.0 for _ in range(n)]
+        if n >= 2:
+            vals[0] = 0.0          # every operand meets the kink of piecewise functions (relu, leaky_relu, abs, clip, …)
         xs.append(np.asarray(vals, dtype=np.float32).reshape(shp))
     return xs
 
